@@ -70,6 +70,25 @@ def gen_cases(run: Run, n: int):
             (r,) = B.op17.if_(cnd, then_branch=lambda: [B.op17.add(x, w)], else_branch=lambda: [B.op17.neg(x)])
             outs = {"r": r, "s": B.op17.mul(w, x)}
         cases.append(B.Case({"x": x, "cnd": cnd, "w": w}, outs, False, {"legal": True, "default_valued_input_read_in": where}))
+    # a value created in a body at depth 1 (from the body's own argument, or from an outer value) and used again THREE and FOUR control-flow
+    # levels deeper: it belongs to that body - a legal program that builds and computes its dataflow
+    for deeper in (3, 4):
+        for dep in ("body-argument", "outer-value"):
+            x = B.argument(B.Tensor(F32, (2,)))
+            cnd = B.argument(B.Tensor(np.bool_, ()))
+
+            def lbody(i, c, acc):
+                v = B.op17.add(acc if dep == "body-argument" else x, B.op17.const(np.array([1000, 1000], F32)))
+
+                def nest(d):
+                    if d == 0:
+                        return B.op17.mul(v, acc)
+                    return B.op17.if_(cnd, then_branch=lambda: [nest(d - 1)], else_branch=lambda: [B.op17.neg(acc)])[0]
+
+                return [c, B.op17.add(B.op17.relu(v), nest(deeper))]
+
+            r = B.op17.loop(B.op17.const(np.array(2, np.int64)), v_initial=[x], body=lbody)[0]
+            cases.append(B.Case({"x": x, "cnd": cnd}, {"r": r}, False, {"legal": True, "value_reused_deeper": f"{deeper}-levels/{dep}"}))
     # scope-tree skeletons (shared with C04): a value (every 2nd time an initializer) created in one scope and used in others
     from harness import c04
     sks = list(c04.enumerate_skeletons(3, 1))
